@@ -3,8 +3,8 @@
 // In-package driver for C16 (proxy capacity and slot accounting).  It wires a SnowflakeProxy to a
 // scripted broker (httptest), a scripted websocket relay and scripted pion clients, and forces one
 // exit path of runSession per op of the case line (see coq/Run/ProxySessionRun.v for the ops).
-// After each op it prints tokens.count(), len(tokens.ch) and the Clients figures the broker
-// received in the poll bodies during the op.
+// After each op it prints tokens.count(), len(tokens.ch) and, for every poll body the broker
+// received during the op, its Clients figure with tokens.count() at that moment.
 //
 //	VERIF_DRIVER=1 proxy_lib.test -test.run TestVerifDriver   (case lines on stdin)
 package snowflake_proxy
@@ -22,6 +22,7 @@ import (
 	"strconv"
 	"strings"
 	"sync"
+	"sync/atomic"
 	"testing"
 	"time"
 
@@ -40,16 +41,25 @@ type c16Sess struct {
 	relayConn chan struct{} // closed when the relay accepted the handler's websocket
 	ws        *websocket.Conn
 	polled    int
+	connected int32         // the client's peer connection reached state connected
+	rounds    [][]int       // kind w: sessions to end after each "no match" answer
+	answered  chan struct{} // kind w: a "no match" answer was written
+}
+
+type c16Poll struct {
+	clients int
+	inUse   int64
 }
 
 type c16Env struct {
 	mu       sync.Mutex
 	cur      *c16Sess
-	polls    []int
+	polls    []c16Poll
 	sessions []*c16Sess
 	broker   *httptest.Server
 	relay    *httptest.Server
 	sf       *SnowflakeProxy
+	bare     int64 // slots held by bare gets ('+') not yet returned ('-')
 	// start mode: every poll is a new session; the handler reports its arrival (with the
 	// Clients figure) and waits, parked, for the driver to hand it the session script
 	start   bool
@@ -61,12 +71,24 @@ func (e *c16Env) relayURL(i int) string {
 	return "ws" + strings.TrimPrefix(e.relay.URL, "http") + "/s" + strconv.Itoa(i)
 }
 
-func c16NewClient() (*webrtc.PeerConnection, string, error) {
+// With negotiated set the client's only data channel is pre-negotiated: the client connects
+// (ICE, DTLS, SCTP) but never sends DATA_CHANNEL_OPEN, so the proxy's OnDataChannel never fires.
+func c16NewClient(negotiated bool, connected *int32) (*webrtc.PeerConnection, string, error) {
 	pc, err := webrtc.NewPeerConnection(webrtc.Configuration{})
 	if err != nil {
 		return nil, "", err
 	}
-	if _, err = pc.CreateDataChannel("c16", nil); err != nil {
+	pc.OnConnectionStateChange(func(st webrtc.PeerConnectionState) {
+		if st == webrtc.PeerConnectionStateConnected {
+			atomic.StoreInt32(connected, 1)
+		}
+	})
+	var init *webrtc.DataChannelInit
+	if negotiated {
+		yes, id := true, uint16(0)
+		init = &webrtc.DataChannelInit{Negotiated: &yes, ID: &id}
+	}
+	if _, err = pc.CreateDataChannel("c16", init); err != nil {
 		return nil, "", err
 	}
 	offer, err := pc.CreateOffer(nil)
@@ -107,7 +129,9 @@ func (e *c16Env) handleProxy(w http.ResponseWriter, r *http.Request) {
 	}
 	e.mu.Lock()
 	s := e.cur
-	e.polls = append(e.polls, clients)
+	// the figure was computed just before the request was sent; nothing ends a session between
+	// that moment and this one (the driver ends sessions only after a poll has been answered)
+	e.polls = append(e.polls, c16Poll{clients, tokens.count()})
 	idx := len(e.sessions) - 1
 	var n int
 	if s != nil {
@@ -138,6 +162,16 @@ func (e *c16Env) handleProxy(w http.ResponseWriter, r *http.Request) {
 		} else {
 			http.Error(w, "scripted failure", http.StatusInternalServerError)
 		}
+	case 'w':
+		if n <= len(s.rounds) {
+			w.Write([]byte(`{"Status":"no match"}`))
+			if f, ok := w.(http.Flusher); ok {
+				f.Flush()
+			}
+			s.answered <- struct{}{}
+		} else {
+			http.Error(w, "scripted failure", http.StatusInternalServerError)
+		}
 	case 'b':
 		w.Write(c16PollBody(s.offer, "ws://bad host/"))
 	case 'r':
@@ -148,7 +182,7 @@ func (e *c16Env) handleProxy(w http.ResponseWriter, r *http.Request) {
 		w.Write(c16PollBody(`{"type":"offer","sdp":"garbage"}`, e.relayURL(idx)))
 	case 'q':
 		w.Write(c16PollBody(s.offer, "ws://127.0.0.1:1/"))
-	default: // a g m t o A
+	default: // a g m t T o A
 		w.Write(c16PollBody(s.offer, e.relayURL(idx)))
 	}
 }
@@ -191,7 +225,7 @@ func (e *c16Env) handleAnswer(w http.ResponseWriter, r *http.Request) {
 		case <-time.After(c16Patience(10 * time.Second)):
 		}
 		http.Error(w, "scripted late failure", http.StatusInternalServerError)
-	default: // o q
+	default: // o q T
 		apply()
 		w.Write([]byte(`{"Status":"success"}`))
 	}
@@ -276,12 +310,75 @@ func (e *c16Env) result(show bool) string {
 	if show && len(e.polls) > 0 {
 		parts := make([]string, len(e.polls))
 		for i, c := range e.polls {
-			parts[i] = strconv.Itoa(c)
+			parts[i] = fmt.Sprintf("%d@%d", c.clients, c.inUse)
 		}
 		p = strings.Join(parts, ".")
 	}
 	e.polls = nil
 	return fmt.Sprintf("c%dh%dp%s", tokens.count(), c16ChLen(), p)
+}
+
+// end the handler of session i: the client closes (c), the relay closes (d), or a bare
+// tokens.ret() (-).  Returns "" or the "!..." result.
+func (e *c16Env) end(kind byte, i int) string {
+	s := e.sessions[i]
+	before, chl := tokens.count(), c16ChLen()
+	switch kind {
+	case 'c':
+		if s.client == nil {
+			return "!badop"
+		}
+		s.client.Close()
+	case 'd':
+		e.mu.Lock()
+		ws := s.ws
+		e.mu.Unlock()
+		if ws == nil {
+			return "!badop"
+		}
+		ws.Close()
+	case '-':
+		if !c16Guard(tokens.ret) {
+			return "!blocked-ret"
+		}
+		e.bare--
+		return ""
+	}
+	c16WaitChange(before, chl)
+	return ""
+}
+
+// kind w: runSession stays in pollOffer; after each "no match" answer the sessions of that round
+// end, well before the next poll of the same session (pollInterval later) is computed.
+func (e *c16Env) repoll(s *c16Sess) string {
+	done := make(chan struct{})
+	go func() { e.sf.runSession(genSessionID()); close(done) }()
+	for _, ids := range s.rounds {
+		select {
+		case <-s.answered:
+		case <-done:
+			return "!session-returned-early " + e.result(true)
+		case <-time.After(pollInterval + 3*time.Second):
+			c16Degraded = true
+			return "!nopoll " + e.result(true)
+		}
+		for _, i := range ids {
+			k := byte('c')
+			if e.sessions[i].kind == '+' {
+				k = '-'
+			}
+			if bad := e.end(k, i); bad != "" {
+				return bad + " " + e.result(true)
+			}
+		}
+	}
+	select {
+	case <-done:
+	case <-time.After(pollInterval + 3*time.Second):
+		c16Degraded = true
+		return "!blocked-session " + e.result(true)
+	}
+	return e.result(true)
 }
 
 func (e *c16Env) op(o string) string {
@@ -291,37 +388,36 @@ func (e *c16Env) op(o string) string {
 		if err != nil || i < 0 || i >= len(e.sessions) {
 			return "!badop"
 		}
-		s := e.sessions[i]
-		before, chl := tokens.count(), c16ChLen()
-		switch kind {
-		case 'c':
-			if s.client == nil {
-				return "!badop"
+		if bad := e.end(kind, i); bad != "" {
+			if bad == "!blocked-ret" {
+				bad += " " + e.result(true)
 			}
-			s.client.Close()
-		case 'd':
-			e.mu.Lock()
-			ws := s.ws
-			e.mu.Unlock()
-			if ws == nil {
-				return "!badop"
-			}
-			ws.Close()
-		case '-':
-			if !c16Guard(tokens.ret) {
-				return "!blocked-ret " + e.result(true)
-			}
-			return e.result(true)
+			return bad
 		}
-		c16WaitChange(before, chl)
 		return e.result(true)
 	}
-	if len(o) != 1 || strings.IndexByte("ejsxkunbrRpagmtoqA+", kind) < 0 {
+	s := &c16Sess{kind: kind, relayConn: make(chan struct{})}
+	if kind == 'w' && len(o) > 1 {
+		// w<round>/<round>/...  round = "_" or '.'-separated ids of sessions to end
+		for _, r := range strings.Split(o[1:], "/") {
+			ids := []int{}
+			if r != "_" {
+				for _, x := range strings.Split(r, ".") {
+					i, err := strconv.Atoi(x)
+					if err != nil || i < 0 || i >= len(e.sessions) {
+						return "!badop"
+					}
+					ids = append(ids, i)
+				}
+			}
+			s.rounds = append(s.rounds, ids)
+		}
+		s.answered = make(chan struct{}, len(s.rounds))
+	} else if len(o) != 1 || strings.IndexByte("ejsxkunbrRpagmtToqA+", kind) < 0 {
 		return "!badop"
 	}
-	s := &c16Sess{kind: kind, relayConn: make(chan struct{})}
-	if strings.IndexByte("brRqagmtoA", kind) >= 0 {
-		pc, offer, err := c16NewClient()
+	if strings.IndexByte("brRqagmtToA", kind) >= 0 {
+		pc, offer, err := c16NewClient(kind == 'T', &s.connected)
 		if err != nil {
 			return "!client " + err.Error()
 		}
@@ -336,12 +432,16 @@ func (e *c16Env) op(o string) string {
 		return "!blocked-get " + e.result(true)
 	}
 	if kind == '+' {
+		e.bare++
 		return e.result(false)
 	}
 	before, chl := tokens.count(), c16ChLen()
 	limit := 3 * time.Second
-	if kind == 't' || kind == 'n' {
+	if kind == 't' || kind == 'T' || kind == 'n' {
 		limit += dataChannelTimeout
+	}
+	if kind == 'w' {
+		return e.repoll(s)
 	}
 	if kind == 'R' {
 		// sessions run one at a time in this mode; later sessions use the non-TLS test relay again
@@ -360,6 +460,11 @@ func (e *c16Env) op(o string) string {
 		}
 	case 'q':
 		c16WaitChange(before, chl)
+	case 'T':
+		if atomic.LoadInt32(&s.connected) == 0 {
+			// the scenario was not exercised (no usable network interface?)
+			return "!client-never-connected " + e.result(true)
+		}
 	}
 	if s.client != nil && strings.IndexByte("oA", kind) < 0 {
 		s.client.Close()
@@ -390,7 +495,7 @@ func (e *c16Env) startOp(o string) string {
 		}
 		s := &c16Sess{kind: kind, relayConn: make(chan struct{})}
 		if strings.IndexByte("brqagmoA", kind) >= 0 {
-			pc, offer, err := c16NewClient()
+			pc, offer, err := c16NewClient(false, &s.connected)
 			if err != nil {
 				return "!client " + err.Error()
 			}
@@ -496,7 +601,7 @@ func c16Case(args []string) string {
 			s.client.Close()
 		}
 	}
-	residual := int64(strings.Count(args[2], "+") - strings.Count(args[2], "-"))
+	residual := e.bare
 	deadline := time.Now().Add(c16Patience(3 * time.Second))
 	for time.Now().Before(deadline) && tokens.count() > residual {
 		time.Sleep(2 * time.Millisecond)
